@@ -578,6 +578,7 @@ class Crate:
         for b in self.bodies.values():
             if "body" in b:
                 lower_while_next(b["body"])
+                lower_let_else_panic(b["body"])
                 lower_match_stmt(b["body"])
                 merge_guarded_arms(b["body"])
                 if b.get("dk") in ("Fn", "AssocFn"):
@@ -1117,6 +1118,44 @@ def merge_guarded_arms(root):
             merged["body"] = body
             arms[i:i + 2] = [merged]
             # stay at i: a further arm on the same variant may follow
+
+
+_PANICS = ("core::panicking::", "std::rt::panic", "std::rt::begin_panic")
+
+
+def lower_let_else_panic(root):
+    """`let Some(x) = o else { panic!(msg) };`  is  `let x = o.expect(msg);`  (likewise `Ok(x)` of a Result): the same value on the same
+    condition, and a panic with a message of the author's on the other - one panic site of the `unwrap` kind on operand o"""
+    def only_panics(blk):
+        b = blk.get("b", blk)
+        items = [st.get("e") for st in b.get("stmts", []) if st.get("k") in ("SSemi", "SExpr")]
+        if len(items) != len(b.get("stmts", [])):
+            return None
+        if b.get("expr") is not None:
+            items.append(b["expr"])
+        if len(items) != 1:
+            return None
+        e = strip(items[0])
+        if isinstance(e, dict) and e.get("k") == "Block":
+            return only_panics(e)            # panic!(..) expands to a block around the call
+        if isinstance(e, dict) and e.get("k") == "Call" and str(e.get("callee", "")).startswith(_PANICS):
+            return e
+        return None
+    for n in walk(root):
+        if n.get("k") != "SLet" or "els" not in n or "init" not in n:
+            continue
+        p = n["pat"]
+        if p.get("k") != "PTupleStruct" or len(p.get("ps", [])) != 1:
+            continue
+        head = str(p.get("path", ""))
+        which = "Option" if head.endswith("::Some") else "Result" if head.endswith("::Ok") else None
+        if which is None or only_panics(n["els"]) is None:
+            continue
+        sub = p["ps"][0]
+        n["init"] = {"k": "MethodCall", "name": "expect", "callee": "std::%s::%s::<T>::expect" % (which.lower(), which), "recv": n["init"],
+                     "args": [{"k": "Lit", "lk": "str", "v": "", "ty": "&str", "sp": n.get("sp", "")}], "ty": sub.get("ty", ""), "sp": n["init"].get("sp", n.get("sp", ""))}
+        n["pat"] = sub
+        del n["els"]
 
 
 def lower_match_stmt(root):
